@@ -21,13 +21,17 @@ def replaceNl (s r : Str) : Str := s.flatMap fun c => if c == chNl then r else [
 def padTo (doPad : Bool) (s : Str) (n : Nat) : Str :=
   if doPad then s ++ spaces (n - runeCount s) else s
 
+/-- every alias of an option as it is displayed (`--long`, `-s`, lonesome dash), joined by `|` -/
+def aliasText (o : Opt) : Str :=
+  joinWith (b "|") (o.aliases.map fun e =>
+    if e.length > 1 then b "--" ++ e else if e != [chDash] then [chDash] ++ e else e)
+
+/-- the argument part of a synopsis: ` <name>` unless bool, `...` for several arguments -/
+def synTail (o : Opt) : Str :=
+  (if o.kind != .bool then b " <" ++ o.helpArgName ++ b ">" else []) ++ (if o.max > 1 then b "..." else [])
+
 /-- `Option.Synopsis()`: the `HelpSynopsis` string -/
-def synopsisOf (o : Opt) : Str :=
-  let al := o.aliases.map fun e =>
-    if e.length > 1 then b "--" ++ e else if e != [chDash] then [chDash] ++ e else e
-  let s := joinWith (b "|") al
-  let s := if o.kind != .bool then s ++ b " <" ++ o.helpArgName ++ b ">" else s
-  if o.max > 1 then s ++ b "..." else s
+def synopsisOf (o : Opt) : Str := aliasText o ++ synTail o
 
 def insertByName (P : Prog) (x : Nat) : List Nat → List Nat
   | [] => [x]
@@ -105,16 +109,20 @@ def showArgs (args : List (Str × Str)) : Bool :=
   | [(a, d)] => !(a.isEmpty || d.isEmpty)
   | _ => true
 
-def helpString (o : Opt) (factor : Nat) : Str :=
-  let padding := spaces factor
+/-- the left part of an option entry: padded synopsis and description -/
+def helpLead (o : Opt) (factor : Nat) : Str :=
   let t := indent4 (padTo (!o.required || !o.description.isEmpty || !o.envVar.isEmpty) (synopsisOf o) factor)
-  let t := if o.description.isEmpty then t else t ++ replaceNl o.description (b "\n    " ++ padding)
+  if o.description.isEmpty then t else t ++ replaceNl o.description (b "\n    " ++ spaces factor)
+
+/-- the right part: default value and environment variable -/
+def helpTail (o : Opt) : Str :=
+  let sep : Str := if o.description.isEmpty then [] else [chSp]
   if !o.required then
-    t ++ (if o.description.isEmpty then [] else [chSp]) ++ b "(default: " ++ o.defaultStr ++
-      (if o.envVar.isEmpty then [] else b ", env: " ++ o.envVar) ++ b ")\n\n"
+    sep ++ b "(default: " ++ o.defaultStr ++ (if o.envVar.isEmpty then [] else b ", env: " ++ o.envVar) ++ b ")\n\n"
   else
-    t ++ (if o.envVar.isEmpty then []
-          else (if o.description.isEmpty then [] else [chSp]) ++ b "(env: " ++ o.envVar ++ b ")") ++ b "\n\n"
+    (if o.envVar.isEmpty then [] else sep ++ b "(env: " ++ o.envVar ++ b ")") ++ b "\n\n"
+
+def helpString (o : Opt) (factor : Nat) : Str := helpLead o factor ++ helpTail o
 
 def argString (a : Str × Str) (factor : Nat) : Str :=
   let t := indent4 (padTo (!a.2.isEmpty) a.1 factor)
